@@ -17,7 +17,7 @@ META = {
         "message, scoped PDU and PDU cross every length in 100..300; the client must accept and return the value. "
         "Lemma: the buffer password_to_key hands to its hash is exactly the RFC 3414 A.2 expansion (recording hash "
         "object passed as the documented hash_implementation parameter)."),
-    "bounds": ["password lengths 1..300 (quick: 1..64, 120..135, 250..260)", "engine id lengths 5..32", "operations get, getnext, bulkget, set, walk",
+    "bounds": ["password lengths 1..300 (quick: 1..64, 120..135, 250..260)", "engine id lengths 5..32", "context engine id: default / explicit and different from the agent's", "operations get, getnext, bulkget, set, walk",
                "users MD5 / SHA-1, with and without privacy (harness cipher)", "response padding 0..260 octets (every total / scoped PDU / PDU length from ~100 to ~380)"],
     "outside": ["passwords longer than 300 octets", "privacy protocols other than the harness stream cipher (DES/AES plug-ins are not installed)"],
     "stubs": ["sender = trampoline", "get_request_id pinned", "privacy plug-in = harness stream cipher", "hash_implementation = recording wrapper around hashlib (lemma job only)"],
@@ -31,7 +31,7 @@ OPS = ["get", "getnext", "bulkget", "set", "walk"]
 CONFIRMED = {ber.P_GET, ber.P_GETNEXT, ber.P_BULK, ber.P_SET, ber.P_INFORM}
 
 
-def build(kind, auth_pw, priv_pw, engine_id, clock=1000):
+def build(kind, auth_pw, priv_pw, engine_id, clock=1000, context_engine_id=b""):
     import warnings
     warnings.simplefilter("ignore")
     from puresnmp.api.raw import Client
@@ -44,7 +44,7 @@ def build(kind, auth_pw, priv_pw, engine_id, clock=1000):
     agent = Agent(Database(UNIVERSE))
     engine = rusm.Engine(agent, engine_id, [user], boots=3, clock=lambda: clock)
     creds = V3("interop", Auth(auth_pw, proto), Priv(priv_pw, C.PRIV_METHOD) if with_priv else None)
-    client = Client("192.0.2.1", creds, sender=tramp.sender)
+    client = Client("192.0.2.1", creds, sender=tramp.sender, engine_id=context_engine_id)
     return client, engine, agent, user
 
 
@@ -67,7 +67,7 @@ def run_op(client, op, answer):
 def make_request_harness(kind, op, lset, fixed_engine_len=None, fixed_pw_len=None):
     level = 3 if kind.endswith("priv") else 1
 
-    def h(l_sel, e_len):
+    def h(l_sel, e_len, ctx_sel=0):
         problem = None
         with window():
             L = lset[choose(l_sel, 0, len(lset) - 1)] if fixed_pw_len is None else fixed_pw_len
@@ -77,7 +77,9 @@ def make_request_harness(kind, op, lset, fixed_engine_len=None, fixed_pw_len=Non
             engine_id = (b"\x80\x00\x1f\x88\x04" + bytes(range(65, 65 + 27)))[:E]
             rids = C.RequestIds().install()
             try:
-                client, engine, agent, user = build(kind, auth_pw, priv_pw, engine_id)
+                # 0: default context engine id; 1: an explicit one that differs from the agent's engine id
+                ctx_eid = b"\x80\x00\x1f\x88\x04other-context" if choose(ctx_sel, 0, 1) else b""
+                client, engine, agent, user = build(kind, auth_pw, priv_pw, engine_id, context_engine_id=ctx_eid)
                 flags = set()
 
                 def answer(req):
@@ -113,6 +115,10 @@ def make_request_harness(kind, op, lset, fixed_engine_len=None, fixed_pw_len=Non
                     break
                 if len(v.msg.usm.auth) != 12:
                     problem = "digest of %d octets" % len(v.msg.usm.auth)
+                    break
+                scoped_eid = v.msg.scoped.ctx_engine_id if v.msg.scoped is not None else None
+                if scoped_eid is not None and scoped_eid != (ctx_eid or engine_id):
+                    problem = "context engine id %r, caller gave %r" % (scoped_eid, ctx_eid)
                     break
             if problem is None and outcome is not None:
                 if type(outcome).__name__ == "AuthenticationError" and "len127" in flags and known("F08"):
@@ -211,10 +217,10 @@ def jobs(tier):
                                             ("md5priv", "getnext"), ("md5priv", "bulkget"), ("sha1priv", "set"), ("sha1priv", "get")):
                 continue
             out.append(Job(f"request-{kind}-{op}-passwords", make_request_harness(kind, op, lset, fixed_engine_len=12),
-                           [Arg("l_sel", 0, len(lset) - 1), Arg("e_len", 12, 12)], timeout=500 if quick else 1500,
+                           [Arg("l_sel", 0, len(lset) - 1), Arg("e_len", 12, 12), Arg("ctx_sel", 0, 0)], timeout=500 if quick else 1500,
                            mode="E/concolic-window", functions=rf, sample_every=7))
             out.append(Job(f"request-{kind}-{op}-engineids", make_request_harness(kind, op, lset, fixed_pw_len=8),
-                           [Arg("l_sel", 0, 0), Arg("e_len", 5, 32)], timeout=500 if quick else 1500,
+                           [Arg("l_sel", 0, 0), Arg("e_len", 5, 32), Arg("ctx_sel", 0, 1)], timeout=500 if quick else 1500,
                            mode="E/concolic-window", functions=rf, sample_every=3))
         out.append(Job(f"response-{kind}-lengths", make_response_harness(kind), [Arg("pad", 0, 260)], timeout=500 if quick else 1500,
                        mode="E/concolic-window", functions=rf, sample_every=5))
